@@ -929,6 +929,71 @@ def h10(rep, src):
         rep.violation("H10", "using-join@column-map", "the USING/NATURAL join does not forward every un-coalesced input column (%s) AND the column map is pruned before resolution (%s): a shared column outside USING keeps a single candidate and is bound silently" % (a_txt[:90], b_txt[:90]), fb.where())
 
 
+def h11(rep, src):
+    """Every table factor of a FROM item is enumerated: the first one and the one of EACH join."""
+    rep.rule(
+        "H11",
+        "sql/visitor.rs TableWithJoins::tables_with_aliases lists the table of the FROM item (`self.0.relation`) and, in the iteration over `self.0.joins`, the table of that join "
+        "(`<join variable>.relation`) - the joins iteration never reads `self.0.relation` again and reads its own variable's `.relation`",
+        floor=2,
+        necessary="the names collected here are what QueryNames binds to the CTEs and inserts in the table hierarchy with their exact path: a joined CTE that is not listed is not inserted, "
+        "and the lookup of `t2` yields the suffix match `sch.t2` although an entry with exactly that path exists",
+    )
+    fs = [f for f in src.find_fns(name="tables_with_aliases", file="sql/visitor.rs") if f.body and not f.test]
+    if len(fs) != 1:
+        raise Anchor("sql/visitor.rs: expected one tables_with_aliases, found %d" % len(fs))
+    from .canon import helpers_of
+
+    f = fs[0]
+
+    def norm(e):
+        while e["k"] in ("ref", "paren") or (e["k"] == "unary" and e["op"].strip() in ("&", "*")):
+            e = e["e"]
+        return e
+
+    def relation_bases(n):
+        return [show(norm(x["e"]), 0).replace(" ", "") for x in walk(n) if x["k"] == "field" and x.get("name", x.get("f")) == "relation"]
+
+    # iterations over the joins: closures of an iterator chain rooted at `<..>.joins`, and `for v in <..>.joins..`
+    scopes = []
+    for m in find(f.body, "mcall"):
+        r, rooted = m["recv"], False
+        while r is not None:
+            r = norm(r)
+            if r["k"] == "field" and r.get("name", r.get("f")) == "joins":
+                rooted = True
+                break
+            r = r.get("recv") if r["k"] == "mcall" else None
+        if rooted:
+            for a in m["args"]:
+                if a["k"] == "closure" and len(a["params"]) == 1:
+                    scopes.append((pat_binds(a["params"][0]), a["body"], a["l"]))
+    for lp in find(f.body, "for"):
+        if any(x["k"] == "field" and x.get("name", x.get("f")) == "joins" for x in walk(lp["e"])):
+            scopes.append((pat_binds(lp["pat"]), lp["body"], lp["l"]))
+    first = [b for b in relation_bases(f.body) if b.startswith("self.")]
+    inside_ids = set()
+    for _v, body, _l in scopes:
+        inside_ids |= {id(x) for x in walk(body)}
+    first_outside = [show(norm(x["e"]), 0).replace(" ", "") for x in walk(f.body) if x["k"] == "field" and x.get("name", x.get("f")) == "relation" and id(x) not in inside_ids]
+    rep.instance("H11", "tables_with_aliases@first", {"reads": first_outside})
+    if not any(b.startswith("self.") for b in first_outside):
+        rep.violation("H11", "tables_with_aliases@first", "the table of the FROM item (`self.0.relation`) is not listed", f.where())
+    if not scopes:
+        rep.violation("H11", "tables_with_aliases@joins", "no iteration over `self.0.joins`: the joined tables are not listed", f.where())
+        return
+    own = [b for vs, body, _l in scopes for b in relation_bases(body) if b in vs]
+    again = [b for vs, body, _l in scopes for b in relation_bases(body) if b.startswith("self.")]
+    rep.instance("H11", "tables_with_aliases@joins", {"iterations": len(scopes), "reads_of_the_join": own, "reads_of_the_first_table": again})
+    if again or not own:
+        rep.violation(
+            "H11",
+            "tables_with_aliases@joins",
+            "the iteration over the joins %s: the joined tables are never listed" % ("reads `%s.relation` for every join" % again[0] if again else "does not read `<join>.relation`"),
+            "src/sql/visitor.rs:%d" % scopes[0][2],
+        )
+
+
 def run(rep):
     rep.explanation = (
         "Static arm-table check of hierarchy.rs (syn AST of the current tree). Decides: the suffix search counts matches with an absorbing `More` and only a single match "
@@ -955,5 +1020,6 @@ def run(rep):
     h8(rep, src)
     h9(rep, src)
     h10(rep, src)
+    h11(rep, src)
     rep.assume("rustc accepts the tree (the syn facts are parsed from the same files the build uses)")
     rep.assume("BTreeMap in hierarchy.rs is std::collections::BTreeMap (no local item of that name: checked)")
